@@ -1822,6 +1822,13 @@ func (c *bctx) stmt(st ast.Stmt, rest []ast.Stmt, k bcont, out *strings.Builder,
 					zero = "[]"
 				case "named":
 					zero = bookExtZero[ty.name]
+					if zero == "" {
+						// Go's zero value of a translated struct: every generated field carries its zero value
+						// as its Lean default (a field without one makes `{}` fail to elaborate: loud, not wrong)
+						if _, ok := c.b.gstructOf(ty.name); ok {
+							zero = "({} : " + c.b.leanType(ty) + ")"
+						}
+					}
 				}
 				if zero == "" {
 					c.bad(s, "var declaration of this type")
